@@ -439,3 +439,202 @@ def lut_op_streams(ck, np):
         ck.count("lutop_float_" + k, v)
     return {"evaluations": n_eval, "distinct": len({(c["bits"], c["kind"], c["si"], c["so"], c["zi"], c["zo"]) for c in cases if c["status"] == "ok"}) + 2,
             "cases": len(cases), "float_entries": stats}
+
+
+# ----------------------------------------------------------------------------------------------------------------------
+# Siblings: the same quantisation, one attribute changed, in the same process, base first — each table judged on its own.
+# A table generator that remembers anything between two calls (a cache keyed too coarsely, a mutated default, a module-level
+# list) hands the sibling the base's table, which the Lean judge of the sibling then rejects.
+# ----------------------------------------------------------------------------------------------------------------------
+def sibling_stream(ck, np):
+    from ethosu.vela import lut as lutmod
+    from ethosu.vela import scaling
+    from ethosu.vela import tflite_graph_optimiser as tgo
+    from ethosu.vela.data_type import DataType
+    from ethosu.vela.operation import Op
+    from ethosu.vela.softmax import SoftMax
+    from ethosu.vela.tensor import QuantizationParameters
+    from ethosu.vela.test import testutil
+
+    rng = ck.rng
+    th = ck.thorough
+    OPS = {"exp": Op.Exp, "log": Op.Log, "sqrt": Op.Sqrt, "gelu": Op.Gelu, "gelu_tanh": Op.Gelu, "sigmoid": Op.Sigmoid, "tanh": Op.Tanh,
+           "lrelu": Op.LeakyRelu, "hswish": Op.HardSwish}
+    DTS = {"int8": DataType.int8, "uint8": DataType.uint8, "int16": DataType.int16}
+    captured = []
+    orig_qs = scaling.quantise_scale
+
+    def qs_wrap(s):
+        r = orig_qs(s)
+        captured.append((int(r[0]), int(r[1])))
+        return r
+
+    def make(kind, dtn, q, attr):
+        """run the real generator; returns dict(status, real, reqs=[lean request lines], judge=kind of judge)"""
+        dt = DTS[dtn]
+        op = testutil.create_op_with_quant_tensors(OPS[kind], [1, 4, 4, 8], [1, 4, 4, 8], datatype=dt)
+        lo, hi = (0, 255) if dtn == "uint8" else ((-128, 127) if dtn == "int8" else (-32768, 32767))
+        for t, s, z in ((op.ifm, q["si"], q["zi"]), (op.ofm, q["so"], q["zo"])):
+            qp = QuantizationParameters()
+            qp.scale_f32, qp.zero_point, qp.quant_min, qp.quant_max = np.float32(s), np.int64(z), lo, hi
+            t.quantization = qp
+        if kind.startswith("gelu"):
+            op.attrs["approximate"] = kind == "gelu_tanh"
+        if kind == "lrelu":
+            op.attrs["alpha"] = np.float32(attr)
+        captured.clear()
+        out = {"kind": kind, "dtype": dtn, "attr": attr, **q}
+        try:
+            if kind in ("exp", "log", "sqrt", "gelu", "gelu_tanh"):
+                r = tgo.convert_ops_to_lut(op, None, None)
+            elif kind in ("sigmoid", "tanh"):
+                r = tgo.convert_tanh_sigmoid_to_lut(op, None, None)
+            elif kind == "lrelu":
+                r = tgo.convert_lrelu_to_lut(op, None)
+            else:
+                r = tgo.convert_hardswish_to_lut(op, None, None)
+            out["status"], out["real"] = "ok", [int(v) for v in np.asarray(r.activation_lut.values).flatten()]
+        except Exception as e:  # noqa
+            st, where = _exc_kind(e)
+            out["status"], out["real"], out["detail"] = st, None, f"{type(e).__name__}: {e} at {where}"
+        b1, b2 = dbl_bits(np.double(np.float32(q["si"]))), dbl_bits(np.double(np.float32(q["so"])))
+        sg = 0 if dtn == "uint8" else 1
+        cap = list(captured)
+        if kind in ("exp", "log", "sqrt", "gelu", "gelu_tanh"):
+            pre = "lut8op" if dtn == "int8" else "lut16op"
+            a = f"{kind} {b1} {b2} {q['zi']} {q['zo']}"
+            out["reqs"] = [f"{pre} {a}", f"{pre}d {a}"] + ([f"{pre}v {a}"] if dtn == "int16" else [])
+            out["judge"] = "float16" if dtn == "int16" else "float8"
+        elif kind in ("sigmoid", "tanh"):
+            a = f"{kind} {sg} {b1} {b2} {q['zi']} {q['zo']}"
+            out["reqs"] = [f"lutf {a}", f"lutfd {a}"]
+            out["judge"] = "float8"
+        elif kind == "lrelu" and len(cap) >= 2:
+            (ids, idsh), (als, alsh) = cap[0], cap[1]
+            out["reqs"] = [f"lut lrelu {sg} {q['zi']} {q['zo']} {ids} {idsh} 1 {als} {alsh}"]
+            if out["real"] is not None:
+                out["reqs"].append(f"lutchk lrelu {sg} {q['zi']} {q['zo']} {ids} {idsh} {als} {alsh} " + " ".join(map(str, out["real"])))
+            out["judge"] = "int"
+        elif kind == "hswish" and len(cap) >= 2:
+            (os_, osh), (rs, rsh) = cap[0], cap[1]
+            out["reqs"] = [f"lut hswish {sg} {q['zi']} {q['zo']} {os_} {osh} {rs} {rsh}"]
+            out["judge"] = "int"
+        else:
+            out["reqs"], out["judge"] = [], "none"
+        return out
+
+    def quant(dtn, kind):
+        lo, hi = (0, 255) if dtn == "uint8" else ((-128, 127) if dtn == "int8" else (-32768, 32767))
+        if dtn == "int16":
+            si = math.exp(rng.uniform(math.log(1e-5), math.log(2e-4)))
+            return dict(si=si, so=math.exp(rng.uniform(math.log(2e-5), math.log(3e-4))), zi=0, zo=0)
+        si = math.exp(rng.uniform(math.log(4e-3), math.log(0.08)))
+        so = math.exp(rng.uniform(math.log(4e-3), math.log(0.08)))
+        return dict(si=si, so=so, zi=rng.randrange(lo, hi + 1), zo=rng.randrange(lo, hi + 1))
+
+    # (base, sibling): (kind, dtype, attr)
+    PAIRS = [(("gelu", "int8", None), ("gelu_tanh", "int8", None)), (("gelu_tanh", "int8", None), ("gelu", "int8", None)),
+             (("gelu", "int16", None), ("gelu_tanh", "int16", None)), (("gelu_tanh", "int16", None), ("gelu", "int16", None)),
+             (("exp", "int8", None), ("gelu", "int8", None)), (("sqrt", "int8", None), ("log", "int8", None)), (("log", "int8", None), ("sqrt", "int8", None)),
+             (("sigmoid", "int8", None), ("tanh", "int8", None)), (("tanh", "uint8", None), ("sigmoid", "uint8", None)),
+             (("lrelu", "int8", 0.1), ("lrelu", "int8", 0.3)), (("lrelu", "uint8", 0.5), ("lrelu", "uint8", 0.01)),
+             (("hswish", "int8", None), ("sigmoid", "int8", None)), (("tanh", "int8", None), ("hswish", "int8", None)),
+             (("lrelu", "int8", 0.2), ("tanh", "int8", None)),
+             (("sigmoid", "int8", None), ("sigmoid", "uint8", None)), (("exp", "int8", None), ("exp", "int16", None)),
+             (("exp", "int16", None), ("exp", "int8", None))]
+    scaling.quantise_scale = qs_wrap
+    tgo.quantise_scale = qs_wrap
+    lutmod.quantise_scale = qs_wrap
+    runs = []
+    try:
+        for rep in range(1 if not th else 6):
+            for base, sib in PAIRS:
+                kinds = {base[0], sib[0]}
+                dts = {base[1], sib[1]}
+                q = quant("int16" if dts == {"int16"} else "int8", None)
+                if "log" in kinds or "sqrt" in kinds:
+                    q["zi"] = -128
+                if "uint8" in dts:
+                    q["zi"], q["zo"] = rng.randrange(0, 128), rng.randrange(0, 128)       # valid for int8 and uint8
+                if dts == {"int8", "int16"}:
+                    q["zi"] = q["zo"] = 0
+                    q["si"] = math.exp(rng.uniform(math.log(1e-4), math.log(3e-4)))        # exp over the int16 range stays finite
+                rb = make(*base[:2], q, base[2])
+                rs = make(*sib[:2], q, sib[2])
+                rs["after"] = {"kind": base[0], "dtype": base[1], "attr": base[2]}
+                runs += [rb, rs]
+    finally:
+        scaling.quantise_scale = orig_qs
+        tgo.quantise_scale = orig_qs
+        lutmod.quantise_scale = orig_qs
+    # softmax exp table: same input scale, other beta; same beta, other scale type
+    sm_runs = []
+    for _ in range(2 if not th else 10):
+        sc = math.exp(rng.uniform(math.log(5e-3), math.log(0.2)))
+        for beta, scale in ((1.0, np.float32(sc)), (0.7, np.float32(sc)), (0.7, np.float64(np.float32(sc))), (1.3, np.float64(np.float32(sc)))):
+            try:
+                tab = [int(v) for v in SoftMax(None).generate_exp_table(beta, scale)]
+            except Exception as e:  # noqa
+                tab = None
+            sm_runs.append({"beta": beta, "scale": scale, "real": tab})
+    reqs = []
+    for r in runs:
+        r["i0"] = len(reqs)
+        reqs += r["reqs"]
+    for r in sm_runs:
+        r["i0"] = len(reqs)
+        bb, sb = dbl_bits(np.double(r["beta"])), dbl_bits(np.double(r["scale"]))
+        reqs.append(f"smexpchk {bb} {sb} " + " ".join(map(str, r["real"] or [0])))
+    outs = ck.model(reqs)
+
+    def ints(line):
+        return [int(v) for v in line.split()[1:]]
+
+    n_eval = 0
+    reported = set()
+    for r in runs:
+        cfg = {k: r[k] for k in ("kind", "dtype", "attr", "si", "so", "zi", "zo")}
+        cfg["generated_after_sibling"] = r.get("after")
+        ck.count("sibling_" + ("second" if "after" in r else "first"))
+        bad = None
+        if r["status"] != "ok":
+            bad = f"raises {r.get('detail')}"
+        elif r["judge"] == "int":
+            n_eval += 256
+            m = outs[r["i0"]]
+            if m != "ok " + " ".join(map(str, r["real"])):
+                j = next((j for j, (a, b) in enumerate(zip(r["real"], ints(m) if m.startswith("ok") else [])) if a != b), None)
+                bad = f"entry {j}: implementation {r['real'][j] if j is not None else '?'}, Model/Lut.lean {ints(m)[j] if j is not None else m[:40]}"
+            elif len(r["reqs"]) > 1 and outs[r["i0"] + 1] not in ("1", "na"):
+                bad = f"Lean reference kernel rejects the table: {outs[r['i0'] + 1][:80]}"
+        elif r["judge"] in ("float8", "float16"):
+            lean = ints(outs[r["i0"]])
+            dists = ints(outs[r["i0"] + 1])
+            real = r["real"]
+            if r["judge"] == "float16":
+                real, lean = _decode16(real), ints(outs[r["i0"] + 2])
+            n_eval += len(real)
+            tol = 2.0 ** -10 if r["judge"] == "float8" else 1e-7
+            for j, (a, b) in enumerate(zip(real, lean)):
+                if a != b and not (abs(a - b) == 1 and dists[j] < TIE_UNIT * tol):
+                    bad = f"entry {j}: implementation {a}, the {r['kind']} formula in double precision (Lean Float) gives {b}"
+                    break
+            if len(real) != len(lean):
+                bad = f"{len(real)} entries, expected {len(lean)}"
+        if bad and (r["kind"], r["dtype"], "after" in r) not in reported:
+            reported.add((r["kind"], r["dtype"], "after" in r))
+            what = f"{r['kind']} {r['dtype']} table" + (f" generated right after a {r['after']['kind']} {r['after']['dtype']} table with the same quantisation"
+                                                        f"{' (attribute ' + str(r['after']['attr']) + ' -> ' + str(r['attr']) + ')' if r['attr'] is not None else ''}"
+                                                        if "after" in r else "") + f": {bad}; config {cfg}"
+            ck.violation(what, {"kind": "sibling_table", **cfg, "implementation_table": (r["real"] or [])[:512]})
+    for r in sm_runs:
+        n_eval += 256
+        v = outs[r["i0"]]
+        if r["real"] is None or not v.startswith("1"):
+            if "smexp" not in reported:
+                reported.add("smexp")
+                ck.violation(f"softmax exp table for beta {r['beta']!r}, input scale {float(r['scale'])!r} ({type(r['scale']).__name__}) generated after a sibling "
+                             f"(same scale, other beta / same beta, other scale type) is rejected by the Lean reference: {v[:100]}",
+                             {"kind": "sibling_table", "beta": r["beta"], "input_scale": float(r["scale"]), "scale_type": type(r["scale"]).__name__,
+                              "implementation_table": r["real"]})
+    return {"evaluations": n_eval, "distinct": len(runs) + len(sm_runs), "cases": len(runs) + len(sm_runs)}
